@@ -50,9 +50,24 @@ EXC_PARENTS = {
 }
 
 
+_BUILTIN_ALIAS_MODULES = ("builtins", "asyncio", "asyncio.exceptions", "concurrent.futures", "concurrent.futures._base", "socket")
+
+
+def canon_exc_name(dotted: str) -> str:
+    """Name under which an exception class from outside the repository is compared: the bare name for builtins (and their
+    documented aliases), `ext:<dotted>` for a class of another module that merely shares its name with a builtin
+    (multiprocessing.TimeoutError is not TimeoutError: a handler for one does not catch the other)."""
+    import builtins as _b
+
+    mod, _, name = dotted.rpartition(".")
+    if mod and mod not in _BUILTIN_ALIAS_MODULES and isinstance(getattr(_b, name, None), type) and issubclass(getattr(_b, name), BaseException):
+        return "ext:" + dotted
+    return name
+
+
 def exc_isinstance(interp, cls: str, handler: str) -> bool:
-    c = cls.rsplit(".", 1)[-1] if cls not in interp.prog.classes else cls
-    h = handler.rsplit(".", 1)[-1] if handler not in interp.prog.classes else handler
+    c = cls if cls.startswith("ext:") else (cls.rsplit(".", 1)[-1] if cls not in interp.prog.classes else cls)
+    h = handler if handler.startswith("ext:") else (handler.rsplit(".", 1)[-1] if handler not in interp.prog.classes else handler)
     if cls in interp.prog.classes:
         for b in interp.prog.mro(cls):
             bn = b.rsplit(".", 1)[-1]
@@ -692,11 +707,17 @@ def _enumerate(interp, args, kwargs, node):
     return interp.alloc(HList(out))
 
 
+def _one_shot(interp, ref):
+    """An iterator object (chain, ...): what it yields can be taken once; membership tests and loops consume it."""
+    interp.deref(ref).one_shot = True
+    return ref
+
+
 def _chain_of(interp, parts, node, name):
     out = []
     for part in parts:
         out.extend(interp.segments(part, node))
-    return interp.alloc(HList(out))
+    return _one_shot(interp, interp.alloc(HList(out)))
 
 
 @ext("itertools.chain.from_iterable")
@@ -722,7 +743,7 @@ def _chain_from_iterable(interp, args, kwargs, node):
             ok = False
             break
     if ok:
-        return interp.alloc(HList(out))
+        return _one_shot(interp, interp.alloc(HList(out)))
     interp.log("call.unknown", node, func=Sym(("ext", "itertools.chain.from_iterable")), args=tuple(args), kwargs=dict(kwargs))
     return Sym(("call", "itertools.chain.from_iterable", tuple(desc(a) for a in args), interp.fresh_id("c")))
 
@@ -1591,7 +1612,7 @@ def call_external(interp, fv: ExtV, args, kwargs, node):
         return h(interp, args, kwargs, node)
     short = name.rsplit(".", 1)[-1]
     if short in EXC_PARENTS or short.endswith("Error") or short.endswith("Exception"):
-        return ExcV(short, None, tuple(args))
+        return ExcV(canon_exc_name(name), None, tuple(args))
     interp.stats["unresolved_calls"] += 1
     interp.log("call.external", node, func=name, args=tuple(args), kwargs=dict(kwargs))
     return Sym(("call", name, tuple(desc(a) if not isinstance(a, tuple) else a for a in args), interp.fresh_id("c")))
